@@ -284,7 +284,7 @@ fn gen_rows(r: &mut Rng, accts: &[(&'static str, &'static str)], malformed: bool
             };
             row[F_ACTION] = s(&act);
             row[F_ACTTYPE] = s("Trades");
-            row[F_SYMBOL] = s(*r.pick(&SYMBOLS));
+            row[F_SYMBOL] = if r.chance(3) { CellV::Num(r.range(1000, 9999) as f64) } else { s(*r.pick(&SYMBOLS)) };
             row[F_DESC] = s("SOME SECURITY INC");
             let (qm, qd) = rand_mant(r, 500);
             let qsign = if r.chance(10) { -sign } else { sign };
@@ -436,13 +436,19 @@ fn standard_layout() -> Vec<Col> {
     (0..14).map(Col::Field).collect()
 }
 
-fn random_layout(r: &mut Rng) -> Vec<Col> {
+fn random_layout(r: &mut Rng, bad_header: bool) -> Vec<Col> {
     let mut cols: Vec<Col> = Vec::new();
+    // malformed stream: a used column is missing, or its name heads two columns
+    let drop = if bad_header && r.chance(50) { Some(*r.pick(&[F_COMM, F_CUR, F_NET, F_SYMBOL, F_ACCTTYPE, F_SDATE])) } else { None };
     for f in 0..14 {
-        if UNUSED.contains(&f) && r.chance(30) {
+        if (UNUSED.contains(&f) && r.chance(30)) || drop == Some(f) {
             continue;
         }
         cols.push(Col::Field(f));
+    }
+    if bad_header && drop.is_none() {
+        let f = *r.pick(&[F_ACTION, F_QTY, F_PRICE, F_CUR, F_ACCTNUM]);
+        cols.push(Col::Extra(FIELDS[f].to_string()));
     }
     if r.chance(75) {
         // Fisher-Yates
@@ -541,11 +547,13 @@ pub fn gen_case(r: &mut Rng) -> QtCase {
     let rate = if r.chance(35) { Some(Decimal::new(r.range(11000, 15000), 4).normalize()) } else { None };
     let opts = Opts { acct, sec, no_fx: r.chance(25), no_sort: r.chance(30), rate };
     let mut sheets = Vec::new();
-    let base = if r.chance(50) { standard_layout() } else { random_layout(r) };
+    let bad_header = malformed && r.chance(25);
+    let base = if r.chance(50) && !bad_header { standard_layout() } else { random_layout(r, bad_header) };
     sheets.push(lay_out(r, &base, &rows));
     let n_var = *r.pick(&[0, 1, 1, 1, 2]);
     for _ in 0..n_var {
-        let l = random_layout(r);
+        let bad = bad_header && r.chance(50);
+        let l = random_layout(r, bad);
         sheets.push(lay_out(r, &l, &rows));
     }
     QtCase { opts, sheets }
